@@ -1,6 +1,6 @@
 SPECIFICATION Spec
 CONSTANTS
-  BaseIds = {1, 2, 3, 4, 5, 6, 7, 8, 9, 10, 11, 12, 17, 18, 19, 20, 21, 22}
+  BaseIds = {1, 2, 3, 4, 5, 6, 7, 8, 9, 10, 11, 12, 17, 18, 19, 20, 21, 22, 23, 24, 25}
   Toks = {"-q", "--quiet", "-v", "-vv", "-vvv", "--ansi", "--no-ansi", "-n", "--no-interaction", "-h", "--help", "-V", "--version"}
   MaxSw = 1
   LitToks = {"-q", "--help", "-V", "-vv", "--no-ansi", "-n"}
